@@ -5,6 +5,7 @@ import (
 	"bytes"
 	"fmt"
 	"os"
+	"runtime/debug"
 	"sync/atomic"
 	"time"
 
@@ -71,6 +72,7 @@ func applyRef(ref map[string][]byte, b *tbatch) {
 }
 
 func snapContent(ss moss.Snapshot) (m map[string][]byte, err error) {
+	defer debug.SetPanicOnFault(debug.SetPanicOnFault(true))
 	defer func() {
 		if rec := recover(); rec != nil {
 			err = fmt.Errorf("panic: %v", rec)
@@ -186,7 +188,7 @@ func runFaultWorkload(cfg Config, rounds []faultRound, faults []*faultSpec, armA
 			return fr
 		}
 		// wait for the round to be persisted, sampling both views meanwhile
-		deadline := time.Now().Add(8 * time.Second)
+		deadline := time.Now().Add(40 * time.Second)
 		for {
 			st, _ := c.Stats()
 			cs, err := c.Snapshot()
@@ -220,7 +222,7 @@ func runFaultWorkload(cfg Config, rounds []faultRound, faults []*faultSpec, armA
 			if st.CurDirtyOps == 0 && st.CurDirtySegments == 0 {
 				break
 			}
-			if faults != nil && rec.triggered() > 0 && time.Now().After(deadline.Add(-6*time.Second)) {
+			if faults != nil && rec.triggered() > 0 && time.Now().After(deadline.Add(-38*time.Second)) {
 				// failures persisting "until a later point": that point is now
 				for _, f := range faults {
 					fr.triggered += f.triggered
